@@ -95,7 +95,10 @@ def public_attrs(msg):
     return [(k, v) for k, v in msg.__dict__.items() if not k.startswith("_")]
 
 
-def record_decode(rid, payload, labelmsm=1, via="ctor", fields=None, frame=None, validate=1):
+_calls = [0]
+
+
+def record_decode(rid, payload, labelmsm=1, via="ctor", fields=None, frame=None, validate=1, omit=None):
     """
     Run the real decoder and project the outcome.
     via: "ctor"   -> RTCMMessage(payload, labelmsm)
@@ -127,11 +130,19 @@ def record_decode(rid, payload, labelmsm=1, via="ctor", fields=None, frame=None,
     }
     msg = None
     try:
+        # arguments equal to the documented defaults are OMITTED in every other call: a default must mean
+        # the same whatever was parsed before, with whatever options
+        _calls[0] += 1
+        if omit is None:
+            omit = _calls[0] % 2 == 0
+        kw = {} if (omit and labelmsm == 1 and labelmsm is not True) else {"labelmsm": labelmsm}
         if via == "ctor":
-            msg = RTCMMessage(payload=bytes(payload), labelmsm=labelmsm)
+            msg = RTCMMessage(payload=bytes(payload), **kw)
         elif via == "parse":
             rec["p"] = []
-            msg = RTCMReader.parse(bytes(frame), validate=validate, labelmsm=labelmsm)
+            if not (omit and validate == 1):
+                kw["validate"] = validate
+            msg = RTCMReader.parse(bytes(frame), **kw)
         else:
             import io
 
